@@ -188,7 +188,7 @@ class StairsArray(ExtensionArray):
             new_values = new_values.astype(int)
 
         return Stairs._new(
-            initial_value=func([s.initial_value for s in self.data]),
+            initial_value=func([s.initial_value for s in self.data]) * 1,
             data=pd.Series(
                 new_values,
                 index=index,
